@@ -139,10 +139,10 @@ PROPS = {
         "explanation": "Theorems: reload_is_identity, schedule_independent_outcomes, schedule_independent_ledger (any two schedules of {commit (both kinds), drop cache, commit+reopen} give the same observations, view and final ledger). Oracle: observations, final content, VerifyArray/VerifyMap and final registers equal across schedules on the real code.",
     },
     "C16": {
-        "streams": ["parallel", "parfault", "storage"], "driver": {"storage": "storage"}, "level": "proof", "race": ["parallel"],
+        "streams": ["parallel", "parfault", "storage"], "driver": {"storage": "storage"}, "level": "proof", "race": ["parallel", "storage", "parfault"],
         "trusted_base": LEAN_TB, "assumptions": STORAGE_ASSUME + [
             "NOT exhibited by the model (exercised under the Go race detector, not proved): data races in the Go memory model, real preemption, sync.Pool internals, concurrent writes to process-wide settings"],
-        "rule": "8 client goroutines with own storages running 200-op scripts concurrently (workers 1..64, both commits, ledger jitter, GOMAXPROCS 2/8/16) vs alone; parallel preload 1..64 workers vs sequential; the same stream again in a -race build; child processes running 8-worker commits/preloads that FAIL midway (ledger fault at call 0..3, corrupted register) with slow encoders - a crash of the child is a violation",
+        "rule": "8 client goroutines with own storages running 200-op scripts concurrently (workers 1..64, both commits, ledger jitter, GOMAXPROCS 2/8/16; every second client hashes keys non-injectively through the caller's scratch buffer: pooled digesters beyond level 0) vs alone; parallel preload 1..64 workers vs sequential; child processes (10 s watchdog per call; a crash or a hang of the child is a violation carrying the panic text / the stuck goroutines) running commits/preloads that FAIL midway: ledger fault at call 0..3 with slow encoders, ONE unencodable slab at a random position among 60-300 slow/fast-encoding slabs for BOTH commit functions with 4-64 workers under GOMAXPROCS 1-16, a corrupted register (error, cached subset of requested, cached = decoding, cache vs the single-worker run), a failing ledger read; the parallel, storage and parfault streams again in a -race build",
         "explanation": "Theorems about the message-passing model of the worker pools: pool_results_perm, pool_results_bounded (result channel never over capacity), pool_terminates, parallel_commit_sequential_equal, parallel_preload_sequential_equal. Oracle: results equal to sequential/alone runs; zero race-detector reports.",
     },
     "C17": {
